@@ -413,9 +413,15 @@ def is_features_concatenate(n: fx.Node, parent: fx.GraphModule) -> bool:
     :return: `True` if `n` corresponds to a concat op.
     :rtype: bool
     """
-    dim = try_get_args(n, parent, 1, 'dim', 0)
-    if n.op == 'call_function' and n.target == torch.cat and dim == 1:
-        return True
+    if n.op == 'call_function' and n.target == torch.cat:
+        # the concatenation axis can also be given as `axis=` (numpy-style keyword) or as a negative
+        # index (e.g. dim=-2 for the channels of a 3-D tensor)
+        dim = try_get_args(n, parent, 1, 'dim', None)
+        if dim is None:
+            dim = n.kwargs.get('axis', 0)
+        if isinstance(dim, int) and dim < 0 and hasattr(n.meta.get('tensor_meta'), 'shape'):
+            dim += len(n.meta['tensor_meta'].shape)
+        return dim == 1
     return False
 
 
